@@ -76,7 +76,8 @@ type c19db struct {
 	polID       map[string]string
 	ops         map[string]util.Hash
 	counter     int
-	stcache     int // size of the permanent database's state cache (0: none)
+	stcache     int  // size of the permanent database's state cache (0: none)
+	noMerge     bool // blocks are written (Write) but not handed to MergeBlockWriteDatabase: an import that stopped before its merge
 }
 
 func (d *c19db) open() error {
@@ -227,6 +228,9 @@ func (d *c19db) write(b *c19block) error {
 			if err := w.Write(); err != nil {
 				return err
 			}
+		}
+		if x.noMerge {
+			return nil
 		}
 		return x.center.MergeBlockWriteDatabase(w)
 	}
